@@ -198,6 +198,8 @@ Returns:
         raw = cost
         if ExtraArgs is None: ExtraArgs = ()
         self._fcalls, cost = wrap_function(cost, ExtraArgs, evalmon, start=self._fcalls[0])
+        if self._reducer: # reduce the cost, then apply bounds and penalty
+            cost = reduced(self._reducer, arraylike=True)(cost)
         if self._useStrictRange:
             if self.generations:
                 #NOTE: pop[0] was best, may not be after resetting simplex
@@ -212,9 +214,6 @@ Returns:
         else: constraints = self._constraints
         cost = wrap_penalty(cost, self._penalty)
         cost = wrap_nested(cost, constraints)
-        if self._reducer:
-           #cost = reduced(*self._reducer)(cost) # was self._reducer = (f,bool)
-            cost = reduced(self._reducer, arraylike=True)(cost)
         # hold on to the 'wrapped' and 'raw' cost function
         self._cost = (cost, raw, ExtraArgs)
         self._live = True
